@@ -164,6 +164,8 @@ pub fn gen_map(rng: &mut Rng, opts: &GenOpts) -> GenMap {
     let n_inh = rng.below(4) as usize;
 
     let stacked_pos = (rng.below(512) as i32, rng.below(384) as i32);
+    // where the previous straight one-span slider ended (stacking under / after slider ends)
+    let mut last_slider_end: Option<(i32, i32)> = None;
 
     for i in 0..n {
         let gap = match shape {
@@ -189,6 +191,7 @@ pub fn gen_map(rng: &mut Rng, opts: &GenOpts) -> GenMap {
                 let dx = 30 + (stacked_pos.1 % 45) + ((i / 5) * 3 % 64) as i32;
                 (stacked_pos.0.min(400) + if i % 2 == 0 { 0 } else { dx }, stacked_pos.1)
             }
+            Shape::Stacked if last_slider_end.is_some() && rng.chance(1, 2) => last_slider_end.unwrap(),
             Shape::Stacked if rng.chance(3, 4) => stacked_pos,
             _ => (rng.below(513) as i32, rng.below(385) as i32),
         };
@@ -250,7 +253,20 @@ pub fn gen_map(rng: &mut Rng, opts: &GenOpts) -> GenMap {
                 } else {
                     one_decimal(rng, 0.0, 20_000.0)
                 };
-                let len_str = if degenerate {
+                // a straight slider of exactly the length of its only segment ends on that point
+                let straight = matches!(shape, Shape::Stacked) && rng.chance(1, 2);
+                let (ctype, pts, repeats) = if straight {
+                    let (ex, ey) = (x + 60, y);
+                    last_slider_end = Some((ex, ey));
+                    ("L", format!("|{ex}:{ey}"), 1)
+                } else {
+                    last_slider_end = None;
+                    (ctype, pts, repeats)
+                };
+                let len = if straight { 60.0 } else { len };
+                let len_str = if straight {
+                    ",60".to_string()
+                } else if degenerate {
                     (*rng.pick(&[",0", "", ",0.0", ",0"])).to_string()
                 } else if rng.chance(1, 25) {
                     String::new() // missing length: use path length
